@@ -742,20 +742,23 @@ theorem program_correct (fuel : Nat) (ss : List CStmt) (g g' : List Val) (he : e
 
 /-- a `while` loop runs in constant stack: however many iterations the evaluation takes, and
 however it is left (condition falsey, `break`, a `break`/`continue` addressed to an outer
-loop), the machine has the loop's entry stack when the loop is left -/
+loop), the machine has the loop's entry stack when the loop is left — at the loop's exit: the end
+of its code, or the target of the `break` / `continue` that left it (`exitPc`) -/
 theorem while_constant_stack (fuel : Nat) (lbl : Option String) (c : CExpr) (body : List CStmt) (C : List Instr) (K : List Val) (pos k : Nat)
     (ctx : List LoopCtx) (stk g g' : List Val) (f : Flow)
     (h : codeAt C pos (compileS pos k ctx (.whileS lbl c body))) (hp : poolAt K k (constsS (.whileS lbl c body)))
     (he : evalS fuel g (.whileS lbl c body) = some (g', f)) :
-    ∃ st', Steps C K ⟨pos, stk, g⟩ st' ∧ st'.stk = stk ∧ st'.g = g' :=
-  ⟨_, compileS_correct fuel _ C K pos k ctx stk g g' f h hp he, rfl, rfl⟩
+    ∃ st', Steps C K ⟨pos, stk, g⟩ st' ∧
+      st'.pc = exitPc ctx (pos + bytes (compileS pos k ctx (.whileS lbl c body))) f ∧ st'.stk = stk ∧ st'.g = g' :=
+  ⟨_, compileS_correct fuel _ C K pos k ctx stk g g' f h hp he, rfl, rfl, rfl⟩
 
 /-- the same for `loop` -/
 theorem loop_constant_stack (fuel : Nat) (lbl : Option String) (body : List CStmt) (C : List Instr) (K : List Val) (pos k : Nat)
     (ctx : List LoopCtx) (stk g g' : List Val) (f : Flow)
     (h : codeAt C pos (compileS pos k ctx (.loopS lbl body))) (hp : poolAt K k (constsS (.loopS lbl body)))
     (he : evalS fuel g (.loopS lbl body) = some (g', f)) :
-    ∃ st', Steps C K ⟨pos, stk, g⟩ st' ∧ st'.stk = stk ∧ st'.g = g' :=
-  ⟨_, compileS_correct fuel _ C K pos k ctx stk g g' f h hp he, rfl, rfl⟩
+    ∃ st', Steps C K ⟨pos, stk, g⟩ st' ∧
+      st'.pc = exitPc ctx (pos + bytes (compileS pos k ctx (.loopS lbl body))) f ∧ st'.stk = stk ∧ st'.g = g' :=
+  ⟨_, compileS_correct fuel _ C K pos k ctx stk g g' f h hp he, rfl, rfl, rfl⟩
 
 end P2sh.Core
